@@ -132,7 +132,11 @@ func (p *pipeline) expected(w *mWorld) map[triple]bool {
 			for _, o := range oddRegs {
 				if o.name == in.Name {
 					for _, src := range o.want {
-						set[triple{in.Name, src, fmt.Sprintf("http://%s:%d/", in.Addr, in.Port)}] = true
+						dst := fmt.Sprintf("http://%s:%d/", in.Addr, in.Port)
+						if i := strings.Index(src, "="); i >= 0 { // "<prefix>=<redirect target>"
+							src, dst = src[:i], src[i+1:]
+						}
+						set[triple{in.Name, src, dst}] = true
 					}
 				}
 			}
@@ -347,6 +351,7 @@ var oddRegs = []struct {
 	{"oddnl", []string{"urlprefix-/odd", "x\nroute add evil /evil http://evil:1/"}, nil},
 	{"oddbs", []string{"urlprefix-/oddbs", `back\slash`, "ünï"}, []string{"/oddbs"}},
 	{"oddmixed", []string{"urlprefix-/ok1", "urlprefix-/bad weight=x", "urlprefix-/ok2"}, []string{"/ok1", "/ok2"}},
+	{"oddrel", []string{"urlprefix-/old redirect=301,/new", "urlprefix-/keep"}, []string{"/old=/new", "/keep"}},
 }
 
 func runHistory(t *rapid.T, p *pipeline, withOdd bool) {
